@@ -1,4 +1,5 @@
 import AcraModel.Proxy.MySQL
+import AcraModel.Proxy.SqlPrepared
 import AcraModel.Crypto.Shim
 import Driver.C01
 /-!
@@ -194,6 +195,67 @@ def pendingRun : PState Nat Nat → Nat → List String → List String → Opti
     | ['O'] => pendingRun st n es (showQueue st.pending :: acc)
     | _ => none
 
+/-- events of `sqlprep`: those of `pending` (`q<id>` simple query, `p<name>=<id>` Parse, `b<portal>=<stmt>` Bind,
+`e<portal>` Execute, `s` Sync, `o` other; `D` `C` `S` `E` `Z` `O`) plus the SQL-level prepared statements of the
+simple protocol: `r<name>=<id>` PREPARE name AS statement id, `x<name>` EXECUTE name, `d<name>` DEALLOCATE name,
+`a` DEALLOCATE ALL. A `D` prints the statement whose settings the row is processed with (`row:0` = none). -/
+def showSSrc : SSrc Nat Nat → String
+  | .sql (.plain s) => s!"simple{s}"
+  | .sql (.prepare n s) => s!"prep{n}={s}"
+  | .sql (.execute n) => s!"exec{n}"
+  | .sql (.deallocate n) => s!"dealloc{n}"
+  | .sql .deallocateAll => "deallocall"
+  | .extended s _ => s!"ext{s}"
+
+def showSQueue (l : List (Entry (SSrc Nat Nat))) : String :=
+  showList (l.map fun | .sync => "sync" | .query q => showSSrc q) ","
+
+def sqlprepRun : SState Nat Nat → Nat → List String → List String → Option (List String)
+  | _, _, [], acc => some acc.reverse
+  | st, n, e :: es, acc =>
+    let client (ev : SClEv Nat Nat) (n' : Nat) : Option (List String) :=
+      match sclStep st ev with
+      | some (st', _) => sqlprepRun st' n' es (showSQueue st'.pending :: acc)
+      | none => some (("closed" :: acc).reverse)
+    let db (ev : DbEv) : Option (List String) :=
+      let st' := { st with pending := dbStep st.pending ev }
+      sqlprepRun st' n es (showSQueue st'.pending :: acc)
+    match e.toList with
+    | 'q' :: r => do client (.query (.plain (← (String.ofList r).toNat?)) false) n
+    | 'r' :: r =>
+      match (String.ofList r).splitOn "=" with
+      | [name, id] => do client (.query (.prepare name (← id.toNat?)) false) n
+      | _ => none
+    | 'x' :: r => client (.query (.execute (String.ofList r)) false) n
+    | 'd' :: r => client (.query (.deallocate (String.ofList r)) false) n
+    | ['a'] => client (.query .deallocateAll false) n
+    | 'p' :: r =>
+      match (String.ofList r).splitOn "=" with
+      | [name, id] => do client (.parse (nm name) (← id.toNat?) false) n
+      | _ => none
+    | 'b' :: r =>
+      match (String.ofList r).splitOn "=" with
+      | [portal, stmt] => client (.bind (nm portal) (nm stmt) n) (n + 1)
+      | _ => none
+    | 'e' :: r => client (.execute (nm (String.ofList r))) n
+    | ['s'] => client .sync n
+    | ['o'] => client .other n
+    | ['D'] =>
+      match rowResolve st.reg st.pending with
+      | .stmt k => sqlprepRun st n es (s!"row:{k}" :: acc)
+      | .closed => some (("closed" :: acc).reverse)
+      | _ => sqlprepRun st n es ("row:0" :: acc)
+    | ['C'] => db .done
+    | ['S'] => db .done
+    | ['E'] => db .error
+    | ['Z'] => db .ready
+    | ['O'] => db .other
+    | _ => none
+
+def parseMyLit (s : String) : Option MyLit :=
+  match s with
+  | "str" => some .str | "int" => some .int | "hexval" => some .hexVal | "hexnum" => some .hexNum | _ => none
+
 def handle (op : String) (args : List String) : Option String :=
   match op, args with
   -- stmt schema [kv×4] stmt rnd  → the statement as forwarded
@@ -280,6 +342,27 @@ def handle (op : String) (args : List String) : Option String :=
       | .hexErr => pure "hexerr"
       | .octalErr => pure "octalerr"
   | "utf8", [d] => do pure (toString (utf8Valid (← ofHex d)))
+  -- escapedgo <data> → utils.DecodeEscaped with BOTH results: the slice and the error
+  | "escapedgo", [d] => do
+      match decodeEscapedGo (← ofHex d) with
+      | (b, none) => pure ("ok " ++ hexOf b)
+      | (b, some .hex) => pure ("hexerr " ++ hexOf b)
+      | (b, some .octal) => pure ("octalerr " ++ hexOf b)
+  -- litdecode <none|bytes|str> <literal text> → PgQueryDBDataCoder.Decode of a string literal
+  | "litdecode", [dt, d] => do
+      let dtype ← (match dt with | "none" => some DType.none | "bytes" => some .bytes | "str" => some .str | _ => none)
+      match decodeLit { kind := .block, dtype := dtype } (← ofHex d) with
+      | some b => pure ("ok " ++ hexOf b)
+      | none => pure "err"
+  -- mylitdecode <str|int|hexval|hexnum> <literal value> → mysql.DBDataCoder.Decode
+  | "mylitdecode", [k, d] => do
+      match myDecode (← parseMyLit k) (← ofHex d) with
+      | some b => pure ("ok " ++ hexOf b)
+      | none => pure "err"
+  -- sqlprep <events joined by ,> → queue after each event / statement used per DataRow, joined by `|`
+  | "sqlprep", [evs] => do
+      let out ← sqlprepRun {} 0 (splitList evs ",") []
+      pure ("|".intercalate out)
   -- pending <events joined by ,> → queue after each event / entry used per DataRow, joined by `|`
   | "pending", [evs] => do
       let out ← pendingRun {} 0 (splitList evs ",") []
